@@ -30,7 +30,7 @@
                            expand / finish_unconstrained_trees (fuzzer closes open leaves; C12), and the
                            tree part of SMT / semantic-predicate elimination (open leaves replaced by
                            closed trees): ANY tree t1 that completes t and is grammar-valid
-   r_eval_true             instantiate_structural_predicates (predicate evaluated to true on the
+   eval_step (r_eval_true) instantiate_structural_predicates (predicate evaluated to true on the
                            CURRENT tree, conjunct dropped), ground SMT conjuncts evaluated to true,
                            semantic predicates evaluated to true.  Python applies this step WITHOUT a
                            stability side condition; RulesFacts.v proves soundness under [stable] and
@@ -110,13 +110,34 @@ Inductive core_step (g : grammar) : cstate -> cstate -> Prop :=
 | r_exists_int cs1 cs2 b v body n t :
     core_step g (cs1 ++ (b, FExistsInt v body) :: cs2, t) (cs1 ++ (upd b v (VNum n), body) :: cs2, t)
 | r_expand cs t t1 : compl t t1 -> wf_tree g t1 ->
-    core_step g (cs, t) (cs, t1)
+    core_step g (cs, t) (cs, t1).
+
+(* what Python does: the conjunct is evaluated on the CURRENT tree and dropped when true
+   (when false the state is discarded: no successor) *)
+Inductive eval_step : cstate -> cstate -> Prop :=
 | r_eval_true cs1 cs2 b f t : evaluable f -> models satom_denote t b f ->
-    core_step g (cs1 ++ (b, f) :: cs2, t) (cs1 ++ cs2, t).
+    eval_step (cs1 ++ (b, f) :: cs2, t) (cs1 ++ cs2, t).
 
 (* side condition under which r_eval_true is sound: the verdict survives every completion *)
 Definition stable (t : tree) (b : env) (f : cform) : Prop :=
   forall t', compl t t' -> models satom_denote t b f -> models satom_denote t' b f.
+
+Inductive eval_step_stable : cstate -> cstate -> Prop :=
+| r_eval_stable cs1 cs2 b f t : evaluable f -> models satom_denote t b f -> stable t b f ->
+    eval_step_stable (cs1 ++ (b, f) :: cs2, t) (cs1 ++ cs2, t).
+
+(* predicate arguments that are variables or string literals (no instantiated trees): the shape of
+   every predicate atom under explicit substitution *)
+Definition no_tree_arg (a : parg) : bool := match a with PTree _ => false | _ => true end.
+
+(* variables of an atom *)
+Definition st_vars (x : sterm) : list var := match x with SVar v => [v] | SLit _ => [] end.
+Definition satom_vars (a : satom) : list var :=
+  match a with
+  | SBool _ => []
+  | SStr _ x y | SToInt2 _ x y => st_vars x ++ st_vars y
+  | SLen _ x _ | SToInt _ x _ => st_vars x
+  end.
 
 (* the six structural predicates that depend on positions only *)
 Definition path_only (n : str) : bool :=
